@@ -253,6 +253,10 @@ pub fn run(prop: PathProp, tier: Tier, seed: u64) -> i32 {
         c02_histories(&ctx, tier, seed);
         ctx.require("history_paths_after_problem_change");
     }
+    if prop == PathProp::C03 {
+        c03_histories(&ctx, tier, seed);
+        ctx.require("history_paths_from_later_solves");
+    }
     if prop == PathProp::C05 {
         c05_histories(&ctx, tier, seed);
         ctx.require("history_paths_after_step_change");
@@ -480,6 +484,90 @@ fn c05_histories(ctx: &Ctx, tier: Tier, seed: u64) {
                                 v["property"] = json!("C05");
                                 ctx.violate(&format!("{sig}:{}:after-parameter-change", h.params.kind.name()), format!("{det} [history: {}]", h.describe()), v);
                             }
+                        }
+                    }
+                }
+            });
+            i += shards;
+        }
+        ctx.merge(b);
+    });
+}
+
+/// C03 over call histories: paths returned by a second or third `solve` re-use edges created
+/// by earlier calls, and a new setup with another checker must not leave edges validated by
+/// the old one; coverage is judged on the log since the last setup, validity by the checker
+/// installed then.
+fn c03_histories(ctx: &Ctx, tier: Tier, seed: u64) {
+    use super::hist::{run_history, Op};
+    let n = tier.pick(1_500, 60_000);
+    let shards = 64;
+    par_shards(shards, crate::util::n_threads(), |sh| {
+        let mut b = Batch::default();
+        let mut i = sh;
+        while i < n {
+            let mut r = Sm::derive(seed, &[303, i as u64]);
+            let mut h = super::c08::base_history(&mut r, i);
+            let spec = h.problems[0].spec.clone();
+            for k in 0..2 {
+                let host = *r.pick(&[Hostility::Plain, Hostility::Plain, Hostility::Free]);
+                h.problems[k] = crate::world::gen_problem(&mut r, &spec, host);
+                if h.params.kind == PKind::Prm {
+                    h.problems[k].goal.radius *= 2.5;
+                }
+            }
+            // keep the logs small enough to index
+            let lvs = crate::refm::ref_lvs(&spec).max(1e-12);
+            let per_motion = (h.params.step_limit().min(spec.diameter()) / (0.1 * lvs)).ceil().max(1.0);
+            if per_motion > 300.0 {
+                let k = 300.0 / per_motion;
+                h.params.max_distance *= k;
+                h.params.search_radius *= k;
+                h.params.connection_radius *= k;
+            }
+            let n_it = 10 + r.below(150) as u64;
+            h.prm_samples = h.prm_samples.min(40);
+            h.ops = if h.params.kind == PKind::Prm {
+                match r.below(2) {
+                    0 => vec![Op::Setup(0), Op::Construct, Op::Solve(10), Op::SetPd(1), Op::Solve(10), Op::SetPd(0), Op::Solve(10)],
+                    _ => vec![Op::Setup(0), Op::Construct, Op::Solve(10), Op::SetupMixed(0, 1), Op::Construct, Op::Solve(10)],
+                }
+            } else {
+                match r.below(2) {
+                    0 => vec![Op::Setup(0), Op::Solve(n_it), Op::Solve(n_it), Op::Solve(n_it)],
+                    _ => vec![Op::Setup(0), Op::Solve(n_it), Op::SetupMixed(0, 1), Op::Solve(n_it), Op::Solve(n_it)],
+                }
+            };
+            b.evaluations += 1;
+            with_kit!(spec, K, kit => {
+                if let Ok((d, recs)) = run_history::<K>(&kit, &h, true, 600_000) {
+                    let evals: Vec<Option<WorldEval<K>>> = h.problems.iter().map(|p| WorldEval::<K>::new(&kit, &p.world).ok()).collect();
+                    let log = d.log.borrow();
+                    let mut solves_since_setup = 0;
+                    for c in &recs {
+                        if matches!(c.op, Op::Setup(_) | Op::SetupMixed(..)) {
+                            solves_since_setup = 0;
+                        }
+                        if matches!(c.op, Op::Solve(_)) {
+                            solves_since_setup += 1;
+                        }
+                        if let (Res::Path(p), Some(ki), Some(pi)) = (&c.res, c.checker, c.pd) {
+                            let Some(ev) = &evals[ki] else { continue };
+                            b.count("history_paths", 1);
+                            if solves_since_setup >= 2 {
+                                b.count("history_paths_from_later_solves", 1);
+                            }
+                            if p.len() >= 3 {
+                                b.distinct.insert(hash_path(p));
+                            }
+                            let acc = Accepted::<K>::from_log(&kit, &ev.sp, &log.recs[c.log_mark_of_last_setup..], &h.problems[pi].start);
+                            let mut worst = 0.0f64;
+                            for (sig, det) in path_coverage(&kit, &ev.sp, ev, &acc, p, &mut worst) {
+                                let mut v = h.to_json();
+                                v["property"] = json!("C03");
+                                ctx.violate(&format!("{sig}:{}:after-history", h.params.kind.name()), format!("{det} [history: {}]", h.describe()), v);
+                            }
+                            b.max("worst_gap_over_lvs(history)", worst);
                         }
                     }
                 }
